@@ -35,6 +35,9 @@ def run(ctx):
     from .. import rules_regions as RR
     RR.check_regions(ctx, 'R5.5', quick=True)
     RR.check_quote_agreement(ctx, 'R5.5')
+    ctx.rule('R5.7', 'left contexts: whatever token precedes it, the opener of a comment or quoted region starts a region token (its body cannot contribute a ";")', floor=100)
+    RR.check_opener_left_contexts(ctx, 'R5.7')
+    check_paren_protocol(ctx)
     from .. import rules_lexer as RL
     ctx.rule('R5.6', 'the lexer sees the whole input at once: regions cannot straddle a chunk boundary', floor=3)
     RL.check_whole_text(ctx, 'R5.6')
@@ -281,3 +284,37 @@ def check_trigger(ctx):
         ctx.ob('R5.4', 'yield-guard', f'{f.mod.relpath}:{y.lineno}',
                'the finished statement is yielded at the first token after the trigger that is not whitespace / a single-line comment', ok,
                detail or f'guards {facts}')
+
+
+PAREN_SKELETONS = {
+    'CASE expression in parentheses': 'SELECT ( CASE WHEN a THEN b END ; x ) ;! SELECT 2 ;!',
+    'stray END in parentheses': 'SELECT ( a END ; x ) ;! SELECT 2 ;!',
+    'stray END IF / END LOOP in parentheses': 'SELECT ( a END_IF ; b END_LOOP ; c ) ;! SELECT 2 ;!',
+    'CASE in parentheses in CREATE VIEW': 'CREATE VIEW v AS SELECT ( CASE WHEN a THEN 1 END ; 2 ) ;! SELECT 2 ;!',
+    'transaction END then parentheses': 'BEGIN ;! END ;! SELECT ( a ; b ) ;! SELECT 2 ;!',
+    'nested parentheses': 'SELECT ( ( a ; b ) ; c ) ;! SELECT 2 ;!',
+}
+
+
+def check_paren_protocol(ctx):
+    """R5.8: the transfer function _change_splitlevel (interpreted on keyword skeletons, as in C17) keeps the level positive
+    between "(" and its ")" whatever keywords occur in between: a ";" inside parentheses never splits, the ";" after the
+    closing parenthesis does."""
+    from . import c17
+    from .. import vocab as VC
+    from .. import miniev as ME
+    ctx.rule('R5.8', 'a ";" inside parentheses is never a split point, whatever keywords (END, END IF, CASE ...) stand in the parentheses', floor=4)
+    V = VC.get_vocab(ctx)
+    f = ctx.repo.func(c17.SPLITTER + '._change_splitlevel')
+    init = c17.initial_state(ctx)
+    loc = f'{f.mod.relpath}:{f.node.lineno}'
+    for name, script in PAREN_SKELETONS.items():
+        try:
+            bad = c17.judge(c17.simulate(ctx, V, script, f, init))
+        except ME.Unsupported as e:
+            ctx.ob('R5.8', f'paren:{name}', loc, 'skeleton evaluable on the extracted transfer function', None, str(e))
+            continue
+        except (ME.Unknown, ME.Crash) as e:
+            bad = f'evaluation fails: {e}'
+        ctx.ob('R5.8', f'paren:{name}', loc, f'{name}: every ";" inside the parentheses is seen at level >= 1, the one after ")" at level <= 0',
+               bad is None, (bad or '') + f' (skeleton: {script})')
